@@ -727,3 +727,30 @@ Example spec_instances :
   write_pdu 16 (WriteMultipleRegisters 5 [1; 2]) None = [144; 1].
 Proof. vm_compute. repeat split; reflexivity. Qed.
 Print Assumptions spec_instances.
+
+(* ================================================================ the authorization wrapper *)
+(* the wrapper object holds nothing but the C callbacks: no per-server state in which a role (or anything else about
+   one session) could survive into another session; every method builds the role string from the role parameter of
+   the very call, calls the same-named callback with the unit id and the range / index, and denies when unset *)
+Theorem authz_wrapper_shape :
+  authz_wrapper_fields = ["inner"]%string /\
+  map aw_method authz_wrappers = ["read_coils"; "read_discrete_inputs"; "read_holding_registers"; "read_input_registers";
+                                  "write_single_coil"; "write_single_register"; "write_multiple_coils"; "write_multiple_registers"]%string /\
+  forallb (fun w => String.eqb (aw_callback w) (aw_method w) && match aw_role w with RoleOfThisCall => true | _ => false end
+                    && String.eqb (aw_unit w) "unit_id.value" && (String.eqb (aw_arg w) "range.into()" || String.eqb (aw_arg w) "idx")
+                    && aw_result_into w && aw_unset_denies w) authz_wrappers = true.
+Proof. vm_compute. repeat split. Qed.
+
+(* as a policy of the core: the C callback of the request's kind, applied to the frame's unit id, the request's range
+   or index and THE ROLE PASSED IN - nothing else *)
+Theorem ffi_policy_spec : forall (C : FfiServer.c_authz_handler) k u arg r,
+  FfiServer.ffi_policy C k u arg r = match C k with Some f => f u arg r | None => false end.
+Proof. intros C k u arg r. destruct k; cbv [FfiServer.ffi_policy FfiServer.authz_row]; cbn; destruct (C _); reflexivity. Qed.
+
+(* a session of a C-ABI TLS+authz server whose handshake established role r (the core's `AuthHandler pol r`, C09 /
+   Front_role): every authorization query of the session shows the C callback exactly r and the decision is the callback's *)
+Theorem ffi_authorize_role : forall (C : FfiServer.c_authz_handler) r u req,
+  authorize (AuthHandler (FfiServer.ffi_policy C) r) u req =
+    (match C (kind_of req) with Some f => f u (arg_of req) r | None => false end,
+     [EvAuth (kind_of req) u (arg_of req) r]).
+Proof. intros C r u req. cbn [authorize]. now rewrite ffi_policy_spec. Qed.
